@@ -101,6 +101,13 @@ extern "C" int k_expand(size_t *st, unsigned char *buf, size_t bufsz, size_t max
   return r;
 }
 
+extern "C" int k_has_remaining(size_t *st, size_t c) {
+  MSF f; unsigned char dummy[1]; ms_load(f, st, dummy, 0, 0, 1); e_add = c;
+  bool r = f.has_remaining(c);
+  ms_store(f, st);
+  return r;
+}
+
 #define MS_INST(SUF, T) \
 extern "C" void k_write_object_##SUF(size_t *st, unsigned char *buf, size_t bufsz, size_t maxlen, T const *t) { \
   MSCT<T> f; f.raw_ = buf; f.rawsz_ = bufsz; ms_load(f, st, buf, bufsz, maxlen, 0); e_isz = sizeof(T); e_vlen = 1; E32(e_v, t, sizeof(T)); \
